@@ -58,6 +58,8 @@ def _str_outside(s: str) -> bool:
 
 
 def _outside(case: Case) -> bool:
+    if case.kind == 'used':
+        return False
     if case.kind == 'str':
         return _str_outside(case.input['s'])
     return _list_class(case.input['points']) == 'outside'
@@ -67,6 +69,52 @@ def _dump(c) -> Dict[str, Any]:
     return canon({'points': [list(p) for p in c.points], 'x': c.x, 'y': c.y, 'w': c.w, 'h': c.h,
                   'left': c.left, 'right': c.right, 'top': c.top, 'bottom': c.bottom,
                   'width': c.width, 'height': c.height, 'point_string': c.point_string})
+
+
+# ---------------------------------------------------------------------------------------
+# WAVE 4 — used objects (oracle-only case kind 'used').  The laws of the statement are laws of the coordinates OBJECT:
+# it "keeps the points in input order", reports the box of those points, and "its points string parses back to the same
+# points and box" — for as long as the object is in use, not only right after construction.  A 'used' case builds
+# several Coords / Baseline objects (in both accepted input forms), hands the elements that carry them to a library
+# routine that reads coordinates (the routes below), and then judges the same laws again ON EACH INPUT OBJECT.
+# No model request: the model's answer for a point list does not depend on what happened to another object.
+# ---------------------------------------------------------------------------------------
+
+USED_ROUTES = ('derive', 'hull', 'add_child', 'page_add_child', 'merge_lines', 'rows', 'json', 'area')
+
+
+def _use(route: str, lines, coords_objs):
+    """hand the objects to the library the way a caller would"""
+    import pagexml.model.physical_document_model as pdm
+    from pagexml.model import coords as co
+    if route == 'derive':
+        co.parse_derived_coords(lines)
+        co.parse_derived_coords(lines[::-1])
+    elif route == 'hull':
+        co.coords_list_to_hull_coords(coords_objs)
+    elif route == 'add_child':
+        region = pdm.PageXMLTextRegion(doc_id='r')
+        for line in lines:
+            region.add_child(line)
+    elif route == 'page_add_child':
+        page = pdm.PageXMLPage(doc_id='p')
+        for i, line in enumerate(lines):
+            page.add_child(pdm.PageXMLColumn(doc_id=f'c{i}', coords=line.coords, lines=[line]))
+    elif route == 'merge_lines':
+        import pagexml.helper.pagexml_helper as ph
+        ph.merge_lines(lines)
+    elif route == 'rows':
+        import pagexml.parser as pa
+        pa.make_rows_from_cells([pdm.PageXMLTableCell(doc_id=f'c{i}', coords=line.coords, row=0, col=i)
+                                 for i, line in enumerate(lines)])
+    elif route == 'json':
+        for line in lines:
+            _ = line.json
+    elif route == 'area':
+        for line in lines:
+            _ = line.area
+    else:
+        raise ValueError(route)
 
 
 class C03(Check):
@@ -79,7 +127,10 @@ class C03(Check):
                   'point-string round trip, rejection of empty / non-integer input; Python int() on non-ASCII '
                   'digits and 3-or-more-element points are outside the model and not generated; correspondence: rejected '
                   'inputs are compared as rejected-vs-accepted (the statement fixes no exception class; the model keeps '
-                  'the class the code raises today), accepted inputs value by value')
+                  'the class the code raises today), accepted inputs value by value; used objects (wave 4): the same laws '
+                  'are judged again, by the oracle only, on every Coords / Baseline object after the element carrying it was '
+                  'handed to a routine that reads coordinates (derive, hull, add_child, merge_lines, table rows, JSON view, area): '
+                  'the model\'s theorems are about one point list and say nothing about aliasing between objects')
     assumptions = ['CPython int()/str() agree with pyInt?/showInt on ASCII input (sampled by the correspondence)',
                    'list.__getitem__/isinstance semantics of parse_points mirrored by hand']
     nontrivial_rule = ('distinct inputs; non-trivial = at least two points or a malformed element '
@@ -134,6 +185,18 @@ class C03(Check):
         for c in out:
             if _outside(c) and OUTSIDE not in c.tags:
                 c.tags.append(OUTSIDE)
+        # WAVE 4: objects that are used after they were built (generated last: the streams above are what they were)
+        for route in USED_ROUTES:
+            out.append(Case('used', {'docs': [[[0, 0], [50, 0], [50, 20], [0, 20]], [[10, 30], [90, 30], [90, 55], [10, 55]],
+                                              [[5, 60], [40, 60], [40, 80]]], 'forms': ['list', 'str', 'list'],
+                                     'route': route}, ['corpus', 'used']))
+        for _ in range(n_rand // 2):
+            k = rng.choice([1, 2, 2, 3, 4, 6])
+            mag = rng.choice([5, 100, 10 ** 4, 10 ** 6])
+            docs = [[[rng.randint(-mag, mag), rng.randint(-mag, mag)] for _ in range(rng.choice([1, 2, 3, 4, 4, 7]))]
+                    for _ in range(k)]
+            out.append(Case('used', {'docs': docs, 'forms': [rng.choice(['list', 'str', 'lists']) for _ in docs],
+                                     'route': rng.choice(USED_ROUTES)}, ['random', 'used']))
         return out
 
     def _rand_str(self, rng: random.Random) -> str:
@@ -167,6 +230,7 @@ class C03(Check):
             r = call(lambda: _dump(Coords(pts)))
             b = call(lambda: _dump(Baseline(_py_points(case.input))))
             r['baseline_same'] = (b == {k: v for k, v in r.items() if k in ('ok', 'err')})
+            r['input_same'] = (pts == _py_points(case.input))      # the caller's own list is left as it was
             return r
         if case.kind == 'str':
             return call(lambda: _dump(Coords(case.input['s'])))
@@ -176,6 +240,24 @@ class C03(Check):
                 d = Coords(c.point_string)
                 return {'first': _dump(c), 'second': _dump(d)}
             return call(f)
+        if case.kind == 'used':
+            import pagexml.model.physical_document_model as pdm
+            inp = case.input
+
+            def build(cls, pts, form):
+                if form == 'str':
+                    return cls(' '.join(f'{p[0]},{p[1]}' for p in pts))
+                return cls([list(p) for p in pts] if form == 'lists' else [tuple(p) for p in pts])
+
+            def reread(c):
+                return {'now': _dump(c), 'from_string': _dump(Coords(c.point_string))}
+            cs = [build(Coords, d, f) for d, f in zip(inp['docs'], inp['forms'])]
+            bs = [build(Baseline, d, f) for d, f in zip(inp['docs'], inp['forms'])]
+            lines = [pdm.PageXMLTextLine(doc_id=f'l{i}', coords=c, baseline=b, text='t') for i, (c, b) in enumerate(zip(cs, bs))]
+            used = call(lambda: _use(inp['route'], lines, cs))
+            return {'used': {'unit': None} if 'ok' in used else used,
+                    'coords': [call(lambda c=c: reread(c)) for c in cs], 'baselines': [call(lambda b=b: reread(b)) for b in bs],
+                    'same_objects': all(l.coords is c and l.baseline is b for l, c, b in zip(lines, cs, bs))}
         raise ValueError(case.kind)
 
     # ---------------------------------------------------------------- model
@@ -189,6 +271,8 @@ class C03(Check):
         return []
 
     def compare(self, case, impl_out, model_out):
+        if case.kind == 'used':
+            return None         # oracle-only (see the WAVE 4 comment above USED_ROUTES)
         m = model_out[0]
         # the statement: "an empty or non-integer point list is rejected with an error rather than accepted" — it
         # fixes THAT such an input is rejected, not the exception class (nor which statement raises first), and no
@@ -214,6 +298,30 @@ class C03(Check):
             fs.append(Finding(f'C03:{key}', what, case, out))
         if _outside(case):
             return fs
+        if case.kind == 'used':
+            route = case.input['route']
+            for which in ('coords', 'baselines'):
+                for i, (pts, o) in enumerate(zip(case.input['docs'], out[which])):
+                    name = f'{which[:-1] if which == "baselines" else which} object {i} after {route}'
+                    if 'ok' not in o:
+                        bad('used:unreadable', f'{name}: reading it again raised {o}')
+                        continue
+                    now, back = o['ok']['now'], o['ok']['from_string']
+                    xs, ys = [p[0] for p in pts], [p[1] for p in pts]
+                    exp = {'points': pts, 'left': min(xs), 'right': max(xs), 'top': min(ys), 'bottom': max(ys),
+                           'width': max(xs) - min(xs), 'height': max(ys) - min(ys), 'x': min(xs), 'y': min(ys),
+                           'w': max(xs) - min(xs), 'h': max(ys) - min(ys)}
+                    if now['points'] != pts:
+                        bad('used:points', f'{name}: points {now["points"]} are no longer the input points {pts}')
+                    wrong = [k for k, v in exp.items() if k != 'points' and now[k] != v]
+                    if wrong:
+                        bad('used:box', f'{name}: {wrong[0]} is {now[wrong[0]]}, the input points have {exp[wrong[0]]}')
+                    if back['points'] != now['points'] or any(back[k] != now[k] for k in exp if k != 'points'):
+                        bad('used:string-roundtrip', f'{name}: points string {now["point_string"]!r} does not parse back to '
+                                                     f'its points {now["points"]} and box')
+            if not out.get('same_objects', True):
+                bad('used:replaced', f'after {route} an element no longer carries the coordinates object it was given')
+            return fs
         if case.kind in ('list', 'roundtrip'):
             pts = case.input['points']
             wellformed = _list_class(pts) == 'wellformed'
@@ -236,6 +344,8 @@ class C03(Check):
                         bad('string-roundtrip', 'points string does not parse back to the same points and box')
                 elif not out.get('baseline_same', True):
                     bad('baseline', 'Baseline differs from Coords on the same points')
+                if not out.get('input_same', True):
+                    bad('input-list-changed', 'building the coordinates changed the point list that was passed in')
             else:
                 # the statement: an empty or non-integer point list is rejected
                 malformed = _list_class(pts) == 'malformed'
@@ -266,6 +376,8 @@ class C03(Check):
         return fs
 
     def nontrivial(self, case: Case) -> bool:
+        if case.kind == 'used':
+            return len(case.input['docs']) >= 2
         if case.kind == 'str':
             return len(case.input['s']) > 3
         return len(case.input['points']) >= 2 or 'malformed' in case.tags
@@ -287,6 +399,18 @@ class C03(Check):
             s = case.input['s']
             for i in range(len(s)):
                 yield Case('str', {'s': s[:i] + s[i + 1:]}, case.tags)
+        elif case.kind == 'used':
+            docs, forms = case.input['docs'], case.input['forms']
+            for i in range(len(docs)):
+                if len(docs) > 1:
+                    yield Case('used', dict(case.input, docs=docs[:i] + docs[i + 1:], forms=forms[:i] + forms[i + 1:]), case.tags)
+            for i, d in enumerate(docs):
+                for j in range(len(d)):
+                    if len(d) > 1:
+                        yield Case('used', dict(case.input, docs=docs[:i] + [d[:j] + d[j + 1:]] + docs[i + 1:]), case.tags)
+            for i, f in enumerate(forms):
+                if f != 'list':
+                    yield Case('used', dict(case.input, forms=forms[:i] + ['list'] + forms[i + 1:]), case.tags)
 
 
 CHECK = C03()
